@@ -100,7 +100,11 @@ fn run_cli_case(prop: &str, bin: &Path, dir: &Path, case: &ProcCase) -> Option<V
     let ws = dir.join("ws");
     std::fs::create_dir_all(&ws).ok()?;
     for (name, bytes) in files {
-        std::fs::write(ws.join(name), bytes).ok()?;
+        let path = ws.join(name);
+        if let Some(parent) = path.parent() {
+            std::fs::create_dir_all(parent).ok()?;
+        }
+        std::fs::write(path, bytes).ok()?;
     }
     let tmp = dir.join("tmp");
     std::fs::create_dir_all(&tmp).ok()?;
